@@ -8,15 +8,13 @@ import tempfile
 PID = "C21"
 LEAN_MODULES = ["Pkgcore.Props.C21"]
 OBLIGATIONS = [
-    "Pkgcore.C21.protect_filter_spec",
     "Pkgcore.C21.glob_match_spec",
+    "Pkgcore.C21.protect_filter_spec",
     "Pkgcore.C21.ignore_filter_spec",
     "Pkgcore.C21.cfg_name_roundtrip",
     "Pkgcore.C21.cfg_number_fresh_or_reused",
-    "Pkgcore.C21.install_trigger_exact",
+    "Pkgcore.C21.install_trigger_sound",
     "Pkgcore.C21.protected_never_overwritten",
-    "Pkgcore.C21.unprotected_merged_normally",
-    "Pkgcore.C21.recorded_keeps_real_name",
     "Pkgcore.C21.uninstall_keeps_modified",
     "Pkgcore.C21.uninstall_removes_the_rest",
 ]
@@ -457,6 +455,7 @@ def filter_differential(ctx, etriggers, scratch):
             "/etc/**/x", "/e?c/f*o", "/etc/f", "*.conf", "/etc/*/", "?", "/opt/*/sub/*", "*o*o*", "/etc/ign/*"]
     comps = ["etc", "etcetera", "opt", "cfg", "app", "conf.d", "foo", "bar.conf", "ign", "f", "fooo", ".keep", ".keep_a-1", "sub", "x", "a b"]
     n_set = ctx.n(40, 400)
+    batch = []
     for k in range(n_set):
         base = tempfile.mkdtemp(dir=scratch)
         root = os.path.join(base, "r")
@@ -489,7 +488,10 @@ def filter_differential(ctx, etriggers, scratch):
             while d not in ("/", ""):
                 alld.add(d)
                 d = posixpath.dirname(d)
-        rep = ctx.model([{"cmd": "c21.filters", "offset": offset, "protects": prot, "masks": mask, "ignores": ign, "dirs": sorted(root + d for d in alld) + [root], "locs": locs}])[0]
+        batch.append(({"cmd": "c21.filters", "offset": offset, "protects": prot, "masks": mask, "ignores": ign, "dirs": sorted(root + d for d in alld) + [root], "locs": locs},
+                      (style, prot, mask, ign, dirs, sorted(alld), root, locs, impl)))
+        shutil.rmtree(base, ignore_errors=True)
+    for (req, (style, prot, mask, ign, dirs, alld, root, locs, impl)), rep in zip(batch, ctx.model([b[0] for b in batch])):
         # the property's own reading, on root-relative paths
         orc_case = {"envd": [{"name": "50x", "vars": {"CONFIG_PROTECT": prot, "CONFIG_PROTECT_MASK": mask, "COLLISION_IGNORE": ign}}], "extra_protects": [], "extra_masks": [],
                     "live": {}, "live_dirs": sorted(alld)}
@@ -507,7 +509,6 @@ def filter_differential(ctx, etriggers, scratch):
             if m != got:
                 ctx.mismatch(case, f"real filters give {got}, the Lean model gives {m}")
         ctx.count("filter_settings")
-        shutil.rmtree(base, ignore_errors=True)
 
 
 def run(ctx):
